@@ -344,6 +344,8 @@ def printer_reach(F, roots):
                 c = n.get("resolved") or n.get("callee")
                 if c and F.fn(c) is not None:
                     todo.append(F.fn(c)["path"])
+            if k == "Path" and n.get("dk") in ("Fn", "AssocFn") and n.get("path") and F.fn(n["path"]) is not None:
+                todo.append(F.fn(n["path"])["path"])
             vals = []
             if k == "Macro" and n.get("name") in ("format", "write", "writeln", "print", "println"):
                 vals = n.get("args", [])
@@ -407,7 +409,101 @@ def placeholder_args(node):
     return out
 
 
+# `{:?}` inside a printer whose text is re-parsed: Debug equals Display only for integers, booleans and vectors of them.
+# Everything else is a violation, except the variants below, which no source text can produce (checked: no function reachable
+# from the parse-tree converters constructs them), so they never reach the formatter of a parsed program.
+DEBUG_SAFE = re.compile(r"^(&|mut )*(std::vec::Vec<)?(i64|u64|i32|u32|usize|isize|bool)>?$")
+DEBUG_EXEMPT_VARIANTS = {
+    "primitives::iterable::IterableKind::Edges": "edges exist only as results of builtin functions; the grammar has no edge-array literal",
+    "primitives::iterable::IterableKind::Nodes": "nodes exist only as results of builtin functions",
+    "primitives::iterable::IterableKind::Tuples": "tuples exist only as results of builtin functions (enumerate, zip, edges)",
+    "primitives::primitive::Primitive::Tuple": "tuples exist only as results of builtin functions",
+}
+
+
+def constructed_by_converters(F):
+    """enum variants constructed in functions reachable (typed HIR, resolved local callees) from parse_problem"""
+    seen, todo, out = set(), ["parser::pre_model::parse_problem"], set()
+    while todo:
+        p = todo.pop()
+        f = F.fn(p)
+        if f is None or f["path"] in seen or "body" not in f:
+            continue
+        seen.add(f["path"])
+        for n in walk(f["body"]):
+            if n.get("k") in ("Call", "MCall"):
+                c = n.get("resolved") or n.get("callee")
+                if n.get("dk") == "Variant":
+                    out.add(norm(n.get("callee") or ""))
+                elif c and F.fn(c) is not None:
+                    todo.append(c)
+            if n.get("k") == "Path" and n.get("dk") == "Variant":
+                out.add(norm(n.get("path") or ""))
+            if n.get("k") == "Path" and n.get("dk") in ("Fn", "AssocFn") and n.get("path") and F.fn(n["path"]) is not None:
+                todo.append(n["path"])  # a function passed as a value (`.map(parse_exp)`)
+            if n.get("k") == "Struct" and n.get("path"):
+                out.add(norm(n["path"]))
+    return out, seen
+
+
+def debug_in_printer(F, R, roots, rule="NUM-FORMAT"):
+    reach = printer_reach(F, roots)
+    built, conv = constructed_by_converters(F)
+    R.count(rule + ".converter-functions", len(conv))
+    # an array literal becomes IterableKind::Xs only through the kind of its elements (flatten_primitive_array_values
+    # dispatches on the element kind), so the exemption rests on the element variants the converters can build
+    element_of = {"Edges": "GraphEdge", "Nodes": "GraphNode", "Tuples": "Tuple", "Tuple": "Tuple"}
+    for v, why in DEBUG_EXEMPT_VARIANTS.items():
+        elem = "primitives::primitive::Primitive::" + element_of[v.rsplit("::", 1)[-1]]
+        R.ob(rule, "exempt:" + "::".join(v.rsplit("::", 2)[-2:]), elem not in built and len(conv) >= 40, "packages/rooc/src/parser/rules_parser", "exemption `%s` holds only while no function reachable from the converters constructs %s (%d functions scanned)" % (why, elem, len(conv)))
+    n = 0
+    for p in sorted(reach):
+        f = F.fn(p)
+        if f is None or "body" not in f:
+            continue
+        for m in walk(f["body"]):
+            if m.get("k") != "Macro" or m.get("name") not in ("format", "write", "writeln", "print", "println"):
+                continue
+            if "?" not in (m.get("snippet") or ""):
+                continue
+            pa = placeholder_args(m)
+            if pa is None:
+                R.ob(rule, "%s:unparsable-debug" % p, False, F.loc(f, m), "format string with `?` not understood")
+                continue
+            for a, spec in pa:
+                if "?" not in spec:
+                    continue
+                n += 1
+                ty = F.ty(strip(a)) or ""
+                ok = DEBUG_SAFE.match(ty.replace(" ", "")) is not None
+                why = "Debug of `%s` equals its Display" % ty
+                if not ok:
+                    arm = _arm_path_of(f, m)
+                    if arm in DEBUG_EXEMPT_VARIANTS:
+                        ok, why = True, "exempt: " + DEBUG_EXEMPT_VARIANTS[arm]
+                    else:
+                        why = "`{:%s}` renders a %s with its Debug form inside a printer whose text is parsed again (variant names, re-escaped strings, float exponents)" % (spec, ty)
+                R.ob(rule, "%s:debug:%s" % (p, sexp(strip(a))), ok, F.loc(f, m), why)
+    R.count(rule + ".debug-sites", n)
+
+
+def _arm_path_of(f, site):
+    """full path of the variant matched by the innermost match arm containing the site"""
+    best = None
+    for n in walk(f["body"]):
+        if n.get("k") == "Match":
+            for arm in n["arms"]:
+                if _contains(arm["body"], site):
+                    p = arm["pat"]
+                    while p.get("k") in ("PRef", "PDeref"):
+                        p = p["pat"]
+                    if p.get("path"):
+                        best = norm(p["path"])
+    return best
+
+
 def num_format(F, R, roots, rule="NUM-FORMAT"):
+    debug_in_printer(F, R, roots, rule)
     reach = printer_reach(F, roots)
     R.count(rule + ".printer-functions", len(reach))
     n_sites = 0
